@@ -15,7 +15,13 @@ head = subprocess.run(["git", "-C", ROOT, "rev-parse", "--short", "HEAD"], stdou
 def run_prop(p):
     env = dict(os.environ, VERIF_OUT=f"/tmp/vx-rekeep-out/{p}")
     r = subprocess.run([os.path.join(ROOT, "check"), p, "--tier", "quick"], env=env, stdout=subprocess.PIPE, stderr=subprocess.STDOUT, text=True)
-    lines = [re.sub(r"replay=\S+ ", "", l)[:300] for l in r.stdout.split("\n") if l.startswith(("VIOLATION", "UNDECIDED", "OK"))]
+    lines = []
+    for l in r.stdout.split("\n"):
+        if not l.startswith(("VIOLATION", "UNDECIDED", "OK")):
+            continue
+        t = re.sub(r"replay=\S+ ", "", l)
+        # keep the verdict-relevant tail when the line is shortened
+        lines.append(t if len(t) <= 300 else t[:270] + " ... " + ("no-failing-input-found" if t.endswith("no-failing-input-found") else "(witness replayed)" if t.startswith("VIOLATION") else ""))
     return p, {"exit": r.returncode, "lines": lines[:4]}
 
 
